@@ -237,3 +237,14 @@ Example C08_negative_discount :
               [(0%N,[0]); (0%N,[1]); (0%N,[0])] [(0%N,[0]); (0%N,[0]); (0%N,[0])] = Score s
             /\ (0 ?= s) = Lt.
 Proof. vm_compute. eexists. split; reflexivity. Qed.
+
+(* ---------- about the code itself: _weights_from_data_matrix as REGENERATED from the source on this run
+   (tools/gen_frames.py -> Gen/FramesGen.v, over the generated split_episodes) is the weight vector of the model,
+   for every data matrix, arrangement, n_steps and discount factor; the theorems above (weight discount_factor**k on
+   the k-th step of each episode, zero beyond n_steps, concatenation in episode order) apply to it *)
+From PK Require Import BridgeFrames.
+From PK.Gen Require Import FramesGen.
+Theorem C08_generated_weights : forall (d : Q) (ep : bool) (n_steps : option nat) (X : dmat Q),
+  gen_weights_from_data_matrix Q Q (qpow d) 0%Q n_steps ep X = qweights d ep n_steps X.
+Proof. intros d ep n_steps X. exact (gen_weights_model Q Q (qpow d) 0%Q n_steps ep X). Qed.
+Print Assumptions C08_generated_weights.
